@@ -88,9 +88,12 @@ package jsonrpc2
 //@ ensures [arity] err == nil ==> len(result) == len(types) || len(result) == 0
 //@ ensures [too-many-is-an-error] err == nil && len(rawArgs) != 0 && string(rawArgs) != "null" ==> jsonelems(string(rawArgs)) <= len(types)
 //@ ensures [error-kind] err != nil ==> result == nil
+//@ ensures [only-pointer-parameters-may-be-left-out] {C16} err == nil && len(result) == len(types) && len(rawArgs) != 0 && string(rawArgs) != "null" ==>
+//@        (forall k int :: jsonelems(string(rawArgs)) <= k && k < len(types) ==> typekind(types[k]) == 22)
 //@ modifies msgstart, msglen, alloc
 //@ loop 0 invariant [count] len(args) == i && i >= 0 && i <= len(types) && dec.dcount == i && dec.dsrc.rcontent == string(rawArgs)
 //@ loop 1 invariant [count] len(args) == i && i <= len(types)
+//@ loop 1 invariant [left-out-so-far-are-pointers] jsonelems(string(rawArgs)) <= i && (forall k int :: jsonelems(string(rawArgs)) <= k && k < i ==> typekind(types[k]) == 22)
 
 //@ func (*Server).Handle
 //@ property C15 C16
@@ -244,6 +247,7 @@ package jsonrpc2
 // ---- HTTP transport (C17): a body is only ever truncated by the configured MaxContentLength ----
 //@ func (*HTTPService).Call
 //@ property C17
+//@ ensures [a-call-is-put-on-the-wire-at-most-once] httpsent <= old(httpsent) + 1
 //@ callreq LimitReader [only-the-configured-limit] : arg1 == service.MaxContentLength && service.MaxContentLength > 0
 
 //@ func (*HTTPServer).ServeHTTP
